@@ -6,11 +6,15 @@ from tie.framework import g_Z, g_bool, g_list, g_opt, g_pair, g_str, run_impl_pa
 
 PROP = "C04"
 IMPORTS = "From JV Require Import Lib.Base Lib.C04Base Model.C04Sources Spec.C04Spec Model.C04Wf Corr.C04Judge."
-RULE = ("seeded scenarios: a parser of 2-7 flat/nested int, List[int] and Dict[str,int] keys (defaults None or typed), 0-3 "
+RULE = ("seeded scenarios: a parser of 2-7 flat/nested int, str, Optional[str], List[int] and Dict[str,int] keys (defaults None or typed; "
+        "str values are tokens 't<n>' and the EMPTY string, rendered in every source: variable set to '', `--k=`, `k: ''`), 0-3 "
         "default_config_files patterns (literal, glob with 0-3 matches whose names sort non-trivially, missing, blank file), "
         "env config via the config variable (file or string), 0-3 individual variables, default_env x JSONARGPARSE_DEFAULT_ENV x "
         "env= argument, and one of parse_args (0-6 items: --k=v, --k+=v, --k.item=v, --cfg file/string), parse_env, parse_string, "
         "parse_object; all values are fresh tokens so every order change is visible; sources are biased to 1-3 hot keys. "
+        "a quarter of the scenarios have one level of subcommands: parse_args(parent items, NAME, subcommand items) with 1-3 parent keys, "
+        "2-4 keys of the chosen subcommand and a bystander subcommand, environment variables PREFIX_NAME__KEY, parent-level --cfg "
+        "documents with a NAME: section (plain assignments), options and (if the subcommand has one) --cfg after the token. "
         "non-trivial = at least two sources assign the same key; distinct = distinct (scenario, observation)")
 TRUSTED = [
     "Coq 8.16.1 kernel + vm_compute",
@@ -19,7 +23,11 @@ TRUSTED = [
     "the rendering of an assignment list as a YAML/JSON document, option strings and PREFIX_LEV__OPT variable names done by the harness",
 ]
 ASSUMPTIONS = [
-    "values are int tokens, List[int] and Dict[str,int]; type conversion is the identity on them (conversion is C02/C05)",
+    "values are int tokens, string tokens ('t<n>' and '') for str/Optional[str] keys, List[int] and Dict[str,int]; type conversion is the "
+    "identity on them (conversion is C02/C05)",
+    "subcommand scenarios (judged case by case, not covered by C04_precedence): parse_args only, the subcommand is named on the command "
+    "line (never by PREFIX_SUBCOMMAND or a `subcommand:` key), no default config files, the environment config and the options before "
+    "the token address the parent's keys, parent-level --cfg sections for the subcommand carry plain assignments only",
     "declared keys are prefix-free (a key is a group or an argument), carry no '+', and each document mentions a key once",
     "PyYAML/json round-trip the generated documents; argparse splits '--opt=value' and '--opt value' alike",
 ]
@@ -41,9 +49,18 @@ class Tok:
         return self.n
 
 
+STR_KINDS = ("str", "optstr")
+COQ_KIND = {"scalar": "KScalar", "str": "KScalar", "optstr": "KScalar", "list": "KList", "dict": "KDict"}
+SUBNAMES = ["fit", "run", "tune"]
+
+
 def gen_value(rng, kind, tok, allow_empty=True):
     if kind == "scalar":
         return tok()
+    if kind in STR_KINDS:
+        # a str / Optional[str] key: token n is rendered as the string "t<n>", token 0 as the EMPTY string (a legal
+        # value in every source: variable set to "", `--k=`, `k: ''` in a document)
+        return 0 if rng.random() < 0.3 else tok()
     if kind == "list":
         n = rng.choice([0, 1, 1, 2, 3]) if allow_empty else rng.choice([1, 1, 2, 3])
         return [tok() for _ in range(n)]
@@ -75,7 +92,7 @@ def gen_case(rng):
     keys = rng.sample(LEAVES, nk)
     decls = []
     for k in keys:
-        kind = rng.choice(["scalar", "list", "list", "dict"])
+        kind = rng.choice(["scalar", "str", "optstr", "list", "list", "dict"])
         default = None if rng.random() < 0.3 else gen_value(rng, kind, tok)
         decls.append({"key": k, "kind": kind, "default": default})
     if not any(d["kind"] == "list" for d in decls):
@@ -179,9 +196,102 @@ def gen_case(rng):
     return case
 
 
+def gen_decls(rng, keys, tok):
+    out = []
+    for k in keys:
+        kind = rng.choice(["scalar", "scalar", "str", "optstr", "list", "list", "dict"])
+        out.append({"key": k, "kind": kind, "default": None if rng.random() < 0.3 else gen_value(rng, kind, tok)})
+    return out
+
+
+def gen_option(rng, d, tok, style):
+    q = rng.random()
+    if d["kind"] == "list" and q < 0.5:
+        return {"asg": [d["key"], "append", tok() if rng.random() < 0.5 else gen_value(rng, "list", tok)], "style": style}
+    if d["kind"] == "dict" and q < 0.5:
+        return {"asg": [d["key"], "item", rng.choice(ITEMS), tok()], "style": style}
+    return {"asg": [d["key"], "set", gen_value(rng, d["kind"], tok)], "style": style}
+
+
+def gen_sub_case(rng):
+    """parse_args(parent items ++ [NAME] ++ subcommand items) on a parser with one level of subcommands."""
+    tok = Tok()
+    own = gen_decls(rng, rng.sample(LEAVES, rng.randint(1, 3)), tok)
+    name, other = rng.sample(SUBNAMES, 2)
+    sdecls = gen_decls(rng, rng.sample(LEAVES, rng.randint(2, 4)), tok)
+    odecls = gen_decls(rng, rng.sample(LEAVES, rng.randint(1, 2)), tok)
+    prefixed = [dict(d, key=name + "." + d["key"]) for d in sdecls]
+    shot = set(rng.sample([d["key"] for d in sdecls], rng.randint(1, 2)))
+    hot = {rng.choice(own)["key"]} | {name + "." + k for k in shot}
+
+    def parent_doc():
+        # own keys with any operation, the subcommand's keys (NAME.key) with plain assignments
+        doc = gen_doc(rng, own, hot, tok, pmax=0.3) + gen_doc(rng, prefixed, hot, tok, set_only=True, pmax=0.3)
+        if not doc:
+            d = rng.choice(prefixed)
+            doc = [[d["key"], "set", gen_value(rng, d["kind"], tok)]]
+        rng.shuffle(doc)
+        return doc
+
+    # no default config files here: on the unchanged tree get_defaults of a parser with (required) subcommands rejects a
+    # default config file that names no subcommand ("expected "subcommand" to be one of ..."), see notes/C04.md
+    patterns = []
+    envcfg = None
+    if rng.random() < 0.25:
+        envcfg = {"doc": gen_doc(rng, own, hot, tok, nonempty=True, set_only=True), "as": rng.choice(["file", "string"]), "fmt": rng.choice(FMTS)}
+    envvars = [[d["key"], gen_value(rng, d["kind"], tok)] for d in own if rng.random() < 0.4]
+    subenv = [[d["key"], gen_value(rng, d["kind"], tok)] for d in sdecls if rng.random() < (0.7 if d["key"] in shot else 0.2)]
+    os_default_env = rng.choice([None, None, None, True, False])
+    argv = []
+    for _ in range(rng.choice([0, 1, 2, 2, 3, 3, 4])):
+        style = rng.choice(["eq", "eq", "space"])
+        if rng.random() < 0.7:
+            argv.append({"cfg": parent_doc(), "as": rng.choice(["file", "string"]), "fmt": rng.choice(FMTS), "style": style})
+        else:
+            argv.append(gen_option(rng, rng.choice(own), tok, style))
+    has_cfg = rng.random() < 0.5
+    subargv = []
+    for _ in range(rng.choice([0, 0, 1, 1, 2, 3])):
+        style = rng.choice(["eq", "eq", "space"])
+        if has_cfg and rng.random() < 0.3:
+            subargv.append({"cfg": gen_doc(rng, sdecls, shot, tok, nonempty=True), "as": rng.choice(["file", "string"]),
+                            "fmt": rng.choice(FMTS), "style": style})
+        else:
+            pool = [d for d in sdecls if d["key"] in shot] if rng.random() < 0.7 else sdecls
+            subargv.append(gen_option(rng, rng.choice(pool), tok, style))
+    return {
+        "parser": own, "cfg_pos": rng.randint(0, 7), "env_prefix": rng.choice(["str", "str", "prog", "none"]),
+        "default_env": rng.random() < 0.65, "os_default_env": os_default_env,
+        "os_default_env_text": rng.choice(["true", "True", "TRUE"]) if os_default_env else rng.choice(["false", "False"]),
+        "env_arg": rng.choice([None, None, None, True, False]), "dcf_empty_list": rng.random() < 0.5,
+        "patterns": patterns, "envcfg": envcfg, "envvars": envvars, "stage_at": None,
+        "entry": {"kind": "args", "argv": argv},
+        "sub": {"name": name, "decls": sdecls, "other": {"name": other, "decls": odecls}, "sorted": rng.random() < 0.5,
+                "has_cfg": has_cfg, "envvars": subenv, "argv": subargv},
+    }
+
+
 def generate(rng, tier):
     n = 1800 if tier == "quick" else 30000
-    return [gen_case(rng) for _ in range(n)]
+    return [gen_sub_case(rng) if rng.random() < 0.25 else gen_case(rng) for _ in range(n)]
+
+
+def search(rng, tier, broken):
+    """failing-input search after a broken proof/tie: ONE fresh quick-sized batch (bounded, ~60 s), judged by the same judge"""
+    import sys
+
+    from tie import framework
+
+    mod = sys.modules[__name__]
+    cases = generate(rng, "quick")
+    obs = observe(cases)
+    bm, bi, bo = framework.judge_cases(mod, cases, obs, tag="x")
+    known = framework.load_known_findings(PROP)
+    bad = sorted(set(bi) | {i for i, k in bo if FINDING_CLASSES.get(k) not in known})
+    if not bad:
+        return None
+    i = bad[0]
+    return {"case": cases[i], "observed": obs[i], "explain": describe(cases[i], obs[i])}
 
 
 def observe(cases):
@@ -246,15 +356,22 @@ def g_optbool(b):
     return g_opt(None if b is None else g_bool(b))
 
 
+def g_decls(decls):
+    return g_list(["{| d_key := %s; d_kind := %s; d_default := %s |}" % (g_key(d["key"]), COQ_KIND[d["kind"]], g_val(d["default"]))
+                   for d in decls], "decl")
+
+
+def g_argv(argv):
+    return g_list([("ACfg %s" % g_doc(it["cfg"])) if "cfg" in it else ("AAsg %s" % g_asg(it["asg"])) for it in argv], "arg")
+
+
 def term(case, obs):
-    decls = g_list(["{| d_key := %s; d_kind := %s; d_default := %s |}"
-                    % (g_key(d["key"]), {"scalar": "KScalar", "list": "KList", "dict": "KDict"}[d["kind"]], g_val(d["default"]))
-                    for d in case["parser"]], "decl")
+    decls = g_decls(case["parser"])
     pats = g_list([g_list([g_pair(g_str(m["name"]), g_doc(m["doc"])) for m in p["matches"]], "(str * doc)") for p in case["patterns"]],
                   "(list (str * doc))")
     e = case["entry"]
     if e["kind"] == "args":
-        entry = "EArgs %s" % g_list([("ACfg %s" % g_doc(it["cfg"])) if "cfg" in it else ("AAsg %s" % g_asg(it["asg"])) for it in e["argv"]], "arg")
+        entry = "EArgs %s" % g_argv(e["argv"])
     elif e["kind"] == "env":
         entry = "EEnv"
     elif e["kind"] == "string":
@@ -270,7 +387,14 @@ def term(case, obs):
         o = "None"
     else:
         o = "(Some (%s, %s))" % (g_list([g_obs_val(v) for v in obs["values"]], "val"), g_bool(bool(obs["extra"])))
-    return "{| k_call := %s; k_obs := %s |}" % (call, o)
+    sub = case.get("sub")
+    if sub:
+        ksub = "(Some (%s, %s, %s, %s))" % (
+            g_pair(g_str(sub["name"]), "false"), g_decls(sub["decls"]),
+            g_list([g_pair(g_key(k), g_val(v)) for k, v in sub["envvars"]], "(tpath * val)"), g_argv(sub["argv"]))
+    else:
+        ksub = "None"
+    return "{| k_call := %s; k_sub := %s; k_obs := %s |}" % (call, ksub, o)
 
 
 # ------------------------------------------------------------------------------------------------------
@@ -292,6 +416,14 @@ def all_docs(case):
             out.append(("argcfg", it["cfg"]) if "cfg" in it else ("arg", [it["asg"]]))
     elif e["kind"] in ("string", "object"):
         out.append((e["kind"], e["doc"]))
+    sub = case.get("sub")
+    if sub:
+        pre = sub["name"] + "."
+        if sub["envvars"]:
+            out.append(("subenvvars", [[pre + k, "set", v] for k, v in sub["envvars"]]))
+        for it in sub["argv"]:
+            doc = it["cfg"] if "cfg" in it else [it["asg"]]
+            out.append(("subargcfg" if "cfg" in it else "subarg", [[pre + a[0]] + list(a[1:]) for a in doc]))
     return out
 
 
@@ -310,7 +442,7 @@ def nontrivial_key(case, obs):
 def category(case, obs):
     e = case["entry"]
     n = len(all_docs(case))
-    return "%s/%d sources/%s" % (e["kind"], min(n, 9), "error" if "error" in obs else "ok")
+    return "%s%s/%d sources/%s" % (e["kind"], "+subcommand" if case.get("sub") else "", min(n, 9), "error" if "error" in obs else "ok")
 
 
 def describe(case, obs):
@@ -344,6 +476,15 @@ def shrink(case):
         cands.append(variant(lambda c: c.__setitem__("envcfg", None)))
     for i in range(len(case["envvars"])):
         cands.append(variant(lambda c, i=i: c["envvars"].pop(i)))
+    if case.get("sub"):
+        for i in range(len(case["sub"]["argv"])):
+            cands.append(variant(lambda c, i=i: c["sub"]["argv"].pop(i)))
+        for i in range(len(case["sub"]["envvars"])):
+            cands.append(variant(lambda c, i=i: c["sub"]["envvars"].pop(i)))
+        used_sub = {a[0] for _, doc in all_docs(case) for a in doc}
+        for i, d in enumerate(case["sub"]["decls"]):
+            if case["sub"]["name"] + "." + d["key"] not in used_sub and len(case["sub"]["decls"]) > 1:
+                cands.append(variant(lambda c, i=i: c["sub"]["decls"].pop(i)))
     # drop single assignments from documents
     def docs_of(c):
         ds = [m["doc"] for p in c["patterns"] for m in p["matches"]]
@@ -378,7 +519,10 @@ META = {
                   "apply_assignment over the sources in the documented order. The model is tied to jsonargparse by running real "
                   "parsers end to end through parse_args/parse_env/parse_string/parse_object and judging agreement inside Coq.",
     "level_note": "One guard (finding class 1): an append ('key+') inside the config named by the config environment variable "
-                  "when the earlier list is non-empty. Trusted: Coq kernel/VM; model faithfulness outside the sampled scenarios; "
+                  "when the earlier list is non-empty. Calls with a subcommand level (class 2) are modelled (Model/C04Sub.v pipeline_sub, "
+                  "composed of the proved pieces) and judged per case against the same documented fold over the keys of both levels "
+                  "(Spec flat_call), but the precedence theorem is not yet proved for pipeline_sub: there the guarantee is the "
+                  "correspondence only. Trusted: Coq kernel/VM; model faithfulness outside the sampled scenarios; "
                   "harness rendering of documents, options and variable names. No axioms.",
     "technique": "Rocq proof by refinement (nested namespace tree -> flat fold, invariants: unique names, shape) + end-to-end correspondence evaluated in Coq",
 }
